@@ -261,7 +261,9 @@ func (i *ICMPv6) NextLayerType() gopacket.LayerType {
 }
 
 func (i *ICMPv6) VerifyChecksum() (error, gopacket.ChecksumVerificationResult) {
-	bytes := append(i.Contents, i.Payload...)
+	// Cap Contents so that append copies: Contents has spare capacity inside the packet
+	// buffer and a plain append would write there (data race; caller's buffer under NoCopy).
+	bytes := append(i.Contents[:len(i.Contents):len(i.Contents)], i.Payload...)
 
 	existing := i.Checksum
 	verification, err := i.computeChecksum(bytes, IPProtocolICMPv6)
